@@ -417,3 +417,23 @@ pub fn generate(r: &mut crate::prng::Rng) -> PairScn {
     let ending_bulk = if r.chance(1, 3) { (0..r.usize(1, 3)).map(|_| r.below(n as u64) as u8).collect() } else { vec![] };
     PairScn { shapes, other, calls, ending_bulk, stack: gen_stack(r), path: r.chance(1, 10) }
 }
+
+/// Many pairs in one file (around and beyond internal limits of the readers).
+pub fn large_unit(unit: u64, ctx: &mut Ctx, ctl: &mut UnitCtl) {
+    let (n, ty) = [(1025usize, 1), (4097, 21), (6000, 3)][(unit % 3) as usize];
+    let scn = PairScn {
+        shapes: vec![grid_spec(ty, 1, 2, 3)],
+        other: grid_spec(if ty == 1 { 3 } else { 1 }, 1, 2, 9),
+        calls: (0..n).map(|_| PCall::Good(0)).collect(),
+        ending_bulk: vec![],
+        stack: StackCfg::Buf(8192),
+        path: unit % 3 == 1,
+    };
+    if !ctl.before_case(|| Scenario::Pair(scn.clone())) {
+        return;
+    }
+    ctx.stats.evaluations += 1;
+    ctx.stats.reach("large-scenario");
+    execute(&scn, ctx);
+    ctl.after_case(ctx, || Scenario::Pair(scn.clone()));
+}
